@@ -64,6 +64,18 @@ Theorem C13_token_inside : forall uni_letter uni_digit uni_space items trail,
 Proof. exact tokens_located. Qed.
 Print Assumptions C13_token_inside.
 
+(* ... and for EVERY input text, well-formed or not (invariant of the lexer state machine: every
+   location in the state is a prefix position): every token the lexer returns and the location of
+   the error it reports lie inside the text *)
+Theorem C13_lexer_locations_inside : forall uni_letter uni_digit uni_space input,
+  match lex uni_letter uni_digit uni_space input with
+  | LexOk toks => forall t, In t toks -> inside input (tloc t)
+  | LexErr e => inside input e
+  | LexOutOfFuel => True
+  end.
+Proof. exact lex_locations_inside. Qed.
+Print Assumptions C13_lexer_locations_inside.
+
 (* ---- 3. the snippet of a token: for a token the lexer locates at (line, col), Snippet(line) is
    found, is that source line, and its rune at column col is the first rune of the token *)
 Theorem C13_snippet_of_token : forall uni_letter uni_digit uni_space items trail tok,
@@ -131,6 +143,17 @@ Theorem C13_syntax_error_at_token : forall (o : oracles) ts l, ts <> [] ->
 Proof. exact (syntax_error_at_token gen_grammar). Qed.
 Print Assumptions C13_syntax_error_at_token.
 
+(* lexer + parser: whatever Parse reports for ANY source text — the lexer's error, or the parser's
+   first error on the lexer's tokens — is located inside the text *)
+Theorem C13_syntax_error_inside : forall uni_letter uni_digit uni_space (o : oracles) src,
+  match lex uni_letter uni_digit uni_space src with
+  | LexErr e => inside src e
+  | LexOk toks => forall l, parse gen_grammar o toks = RErr l -> inside src l
+  | LexOutOfFuel => True
+  end.
+Proof. exact (fun ul ud us => syntax_error_inside ul ud us gen_grammar). Qed.
+Print Assumptions C13_syntax_error_inside.
+
 (* full statement for literals: an invalid number literal is reported AT the literal — false of the
    code (p.error reads p.current after p.next(): known finding C13-parse-error-at-next-token);
    what holds: it is reported at the token that follows *)
@@ -155,6 +178,23 @@ Theorem C13_run_loc : forall fe cfg env e er l r',
 Proof. exact run_loc. Qed.
 Print Assumptions C13_run_loc.
 
+(* ... and that location is the location of a node of the expression — the node whose own operation
+   fails (every Stop of the reference semantics is raised at `loc_of` the node being evaluated) *)
+Theorem C13_run_loc_is_a_node : forall fe cfg env e ctx s er l s',
+  eval fe cfg env ctx e s = Stop er l s' -> exists x, sub_of x e /\ l = loc_of x.
+Proof. exact stop_located. Qed.
+Print Assumptions C13_run_loc_is_a_node.
+
+Theorem C13_run_loc_at_node : forall fe cfg env e er l r',
+  compilable e = true ->
+  eval fe cfg env [] e rs0 = Stop er l r' ->
+  (er = EMachine -> l <> noloc) ->
+  located_in e l /\
+  exists d0, forall d, (d0 <= d)%nat ->
+    run_code fe cfg env (compile (c_mapenv cfg) e) d = Some (Stop er l r').
+Proof. exact run_loc_at_node. Qed.
+Print Assumptions C13_run_loc_at_node.
+
 (* ---- non-vacuity *)
 Open Scope string_scope.
 Open Scope list_scope.
@@ -178,6 +218,12 @@ Example C13_token_nonvacuous :   (* the sample layout of C12: three lines, Greek
     [([], PIdent 945 [946; 49]); ([32], POp2 60 (Some 61)); ([10; 9], PBracket 40); ([], PNum (NHex 120 [49; 70]));
      ([13; 10; 32], PIdent 111 [114])] [32; 10] = true.
 Proof. vm_compute. reflexivity. Qed.
+
+(* an unterminated literal broken by a line feed: the lexer reports (2,0), inside the two-line text *)
+Example C13_lexer_error_nonvacuous :
+  lex (fun _ => false) (fun _ => false) (fun _ => false) [97; 32; 43; 32; 34; 98; 10; 99] = LexErr (2, 0) /\
+  nlines [97; 32; 43; 32; 34; 98; 10; 99] = 2.
+Proof. vm_compute. split; reflexivity. Qed.
 
 (* a ? b : c located as the lexer would: the conditional has no location in the model either *)
 Example C13_conditional_has_no_location :
